@@ -216,7 +216,35 @@ def run(ctx):
         guarded(ctx, 'C05.G3', build, e, lambda a: mentions_var(a, budget), None,
                 'FinishCommand (recording finished commands) does not depend on the failure budget',
                 construct='FinishCommand:guarded-by-budget', forbidden=True)
-    ctx.floor('C05.G3', 6)
+    # "it still waits for, and records, the commands already running": while commands are pending, Build() leaves only
+    # through a return that was preceded by Cleanup() (interrupt / internal error: the running commands are aborted on
+    # purpose) - otherwise it goes round the loop again.  The "cannot make any more progress" exit is for pending == 0.
+    pend = None
+    for e in build.events('asg'):
+        l = strip(e['l'])
+        if e['op'] == '++' and isinstance(l, dict) and l.get('k') == 'var' and l.get('vk') == 'local' and \
+                any(x['k'] == 'asg' and x['op'] == '--' and dstr(strip(x['l'])) == dstr(l) for x in build.events('asg')):
+            if any(True for _ in build.calls('Builder::StartEdge')) and build.ev_reaches(next(build.calls('Builder::StartEdge')), e):
+                pend = l['n']
+    ctx.check('C05.G3', pend is not None, build.name, 'pending:counter-absent', build.loc,
+              'Build counts the commands it started and has not reaped yet (%s)' % pend)
+    if pend is not None:
+        npd = 0
+        for bid, b in build.blocks.items():
+            for i, s2 in enumerate(b['succ']):
+                if s2 is None:
+                    continue
+                if any(p_ is True and isinstance(strip(a), dict) and strip(a).get('k') == 'var' and strip(a)['n'] == pend
+                       for k_, p_, a in build.edge_facts(bid, i)):
+                    npd += 1
+                    r = build.find_path(None, lambda x: x['k'] == 'ret', from_succ=s2,
+                                        init_facts=[(k_, p_) for k_, p_, a in build.edge_facts(bid, i)],
+                                        is_blocker=lambda x: x['k'] == 'call' and x.get('name') in ('Builder::Cleanup', 'Plan::more_to_do'))
+                    ctx.check('C05.G3', r is None, build.name, 'pending:build-left-with-commands-running', 'src/build.cc:%s' % (b.get('term') or {}).get('line', '?'),
+                              'with commands still running Build() returns only after Cleanup(), otherwise it waits again',
+                              witness=None if r is None else {'blocks': r[0]})
+        ctx.check('C05.G3', npd >= 1, build.name, 'pending:never-tested', build.loc, 'Build branches on "commands are pending"')
+    ctx.floor('C05.G3', 8)
 
     # ---- X1: missing source reported, before any command -----------------------------------
     R('C05.X1', 'X', 'Plan::AddSubTarget: leaf && dirty && !generated_by_dep_loader => *err set '
